@@ -3,6 +3,7 @@ package main
 import (
 	"encoding/json"
 	"fmt"
+	"go/types"
 	"os"
 	"os/exec"
 	"path/filepath"
@@ -61,6 +62,15 @@ type Report struct {
 
 func buildReport(eng *Engine, cfg *PropConfig, prop, tier string, obligs []*Oblig, funcs []string, outDir, verif, repo string) *Report {
 	r := &Report{eng: eng, cfg: cfg, prop: prop, tier: tier, funcs: funcs, outDir: outDir, verif: verif, repo: repo}
+	tagTypes := map[int]types.Type{}
+	for _, tt := range eng.ctx.tagTypes {
+		tagTypes[eng.ctx.tagOf(tt)] = tt
+	}
+	for _, ob := range obligs {
+		if ob.Replay != nil {
+			ob.Replay.TagTypes = tagTypes
+		}
+	}
 	byName := map[string]*Group{}
 	for _, ob := range obligs {
 		key := ob.Name
@@ -168,7 +178,7 @@ func (r *Report) writeReplay(g *Group) (path string, found bool) {
 	base := filepath.Join(dir, mangle(g.Name))
 	path = base + ".txt"
 	// try to turn the model into a runnable Go test against the real code
-	if ob.Result == "sat" {
+	if ob.Result != "unsat" && ob.Result != "error" {
 		if gopath, ok := r.tryGoReplay(g, inputs, base, &b); ok {
 			os.WriteFile(path, []byte(b.String()), 0o644)
 			return gopath, true
